@@ -32,3 +32,22 @@ reg("C09", "proof", ASM, ["gbasis.base_one.BaseOneIndex.construct_array_{cartesi
     "gbasis.base_two_symm.BaseTwoIndexSymmetric.construct_array_{cartesian,spherical,mix,lincomb}",
     "gbasis.base_two_asymm.BaseTwoIndexAsymmetric.construct_array_{cartesian,spherical,mix,lincomb}",
     "gbasis.base_four_symm.BaseFourIndexSymmetric.construct_array_{cartesian,spherical,mix,lincomb}"])
+
+DISP = ["contracts.dispatch:Dispatch", "contracts.dispatch:DispatchAsymm"]
+CHECKS["C09"].harnesses += DISP
+
+reg("C02", "proof", ["contracts.moment_int:MomentIntermediate", "contracts.overlap:Cleanup", "contracts.diffop:DiffIntermediate",
+    "contracts.diffop:ComposeDiff", "contracts.diffop:KineticBlock"],
+    ["gbasis.integrals._diff_operator_int._compute_differential_operator_integrals_intermediate",
+     "gbasis.integrals._diff_operator_int._compute_differential_operator_integrals",
+     "gbasis.integrals.kinetic_energy.KineticEnergyIntegral.construct_array_contraction"])
+reg("C07", "proof", ["contracts.moment_int:MomentIntermediate", "contracts.overlap:Cleanup", "contracts.overlap:ComposeMoment",
+    "contracts.diffop:MomentBlock"], ["gbasis.integrals.moment.Moment.construct_array_contraction"])
+reg("C08", "proof", ["contracts.diffop:DiffIntermediate", "contracts.diffop:MomentumBlock", "contracts.diffop:AngMomBlock",
+    "contracts.assembly:TwoSymmHerm"], ["gbasis.integrals.momentum.MomentumIntegral.construct_array_contraction",
+    "gbasis.integrals.angular_momentum.AngularMomentumIntegral.construct_array_contraction"])
+
+reg("C10", "proof", ["contracts.spherical:Harmonics", "contracts.spherical:Conventions"],
+    ["gbasis.spherical.generate_transformation", "gbasis.spherical.real_solid_harmonic", "gbasis.spherical.harmonic_norm",
+     "gbasis.spherical.expansion_coeff", "gbasis.spherical.shift_factor",
+     "gbasis.contractions.GeneralizedContractionShell.angmom_components_cart/_sph/num_cart/num_sph"])
